@@ -206,6 +206,12 @@ def gen(rng, tier):
     clients = [c for c in clients if c] or [[["submit", 0]]]
     spec = {"base": base, "layers": layers, "subs": subs, "clients": clients, "aux": False,
             "final_shutdown": rng.choice([None, None, True, False])}
+    if base["kind"] == "pool" and rng.random() < 0.08:
+        # re-entrant shutdown: a done-callback, running on one of the pool's own worker threads, shuts
+        # the whole stack down (the pool then refuses to join its current thread: RuntimeError inside
+        # the callback) - the executors-in-use gauges must still come down
+        spec["cb_shutdown"] = rng.randrange(nsubs)
+        spec["final_shutdown"] = True
     if spec["final_shutdown"] is not None and rng.random() < 0.5:
         spec["shutdown_racers"] = rng.choice([1, 1, 2])
         spec["shutdown_inner"] = rng.random() < 0.3
@@ -239,6 +245,15 @@ def run(spec, env):
         if f is not None:
             # done-callbacks run on the thread that completed / cancelled the future
             f.add_done_callback(lambda fut, s=s: env.rec("fut-done", s, fut.cancelled()))
+            if spec.get("cb_shutdown") == s:
+                def shut_from_callback(_f):
+                    env.rec("cb-shutdown")
+                    try:
+                        sr.ex.shutdown(True)
+                        env.rec("cb-shutdown-ret", "ok")
+                    except RuntimeError as e:
+                        env.rec("cb-shutdown-ret", "RuntimeError")
+                f.add_done_callback(shut_from_callback)
         return f
     sr.submit = submit
     sr.run_clients()
@@ -409,7 +424,8 @@ def check(spec, env):
                         "msg": "timeout{executor=%s} = %r but %d top-level futures were cancelled by the timeout thread (+%d cancelled by others at or after their deadline); layers %s"
                                % (cur, v, exact, amb, types)})
     # shutdown_cancel_total: futures the final shutdown() of a cancel-on-shutdown top layer cancelled
-    if spec["layers"] and spec["layers"][-1]["t"] == "cos" and shut and sum(1 for L in spec["layers"] if L["t"] == "cos") == 1:
+    if spec["layers"] and spec["layers"][-1]["t"] == "cos" and shut and sum(1 for L in spec["layers"] if L["t"] == "cos") == 1 \
+            and spec.get("cb_shutdown") is None:     # (with a shutdown from a callback the sweep happens earlier, at an undetermined point of the history)
         cur = bname if bk in ("sync", "pool") else "default"
         for L in spec["layers"]:
             if "name" in L:
